@@ -85,6 +85,7 @@ class Monitor:
         self.cur_session_idx = -1
         self.cmp_budget = 4000
         self.cancel_objs: Dict[int, Any] = {}
+        self.returned_by: Dict[int, int] = {}
         self.retain = True  # False when the run has no logger: nothing may keep log objects alive
         self.ext: Dict[str, Any] = {}  # per-property extension state (see oracles_*.py)
         self.plugins: List[Any] = []
@@ -1002,6 +1003,8 @@ def _on_consult(self, agent):
 
 def _on_returned(self, agent, out):
     self.rec("Ret", agent.agent_id, len(out))
+    for o_ in out:
+        self.returned_by[id(o_)] = agent.agent_id  # who actually handed the object in (kept alive by the agents' lists)
     for p in self.plugins:
         p.on_returned(self, agent, out)
 
